@@ -265,6 +265,19 @@ def template_programs():
     def main(*stmts):
         return {"main": Fn([], Block(list(stmts)))}
 
+    # threads whose functions have no effect but their result: joined at once, later, twice, in a loop, from a list, by a callee
+    pure = {"sq": Fn(["n"], Block([], Bin("*", V("n"), V("n"))), "int"),
+            "cat": Fn(["a", "b"], Block([], Bin("+", V("a"), V("b"))), "str", ["str", "str"]),
+            "fact": Fn(["n"], Block([], If(Bin("<=", V("n"), I(1)), Block([], I(1)), Block([], Bin("*", V("n"), Call("fact", Bin("-", V("n"), I(1))))))), "int"),
+            "nothing": Fn(["n"], Block([]), "null", ["int"]),
+            "both": Fn(["n"], Block([Let("a", Spawn("sq", V("n"))), Let("b", Spawn("fact", V("n")))],
+                                    Bin("+", MCall(V("a"), "join"), MCall(V("b"), "join"))), "int")}
+    add("threads_joined", dict(pure, main=Fn([], Block([
+        Let("h", Spawn("sq", I(7))), Let("g", Spawn("cat", S("a"), S("b"))), Print(MCall(V("h"), "join"), MCall(V("g"), "join"), MCall(V("h"), "join")),
+        Let("t", I(0)), For("i", Range(I(0), I(4)), Block([Let("w", Spawn("fact", Bin("+", V("i"), I(1)))), Expr(Asg(V("t"), MCall(V("w"), "join"), "+="))])), Print(V("t")),
+        Let("q", Spawn("nothing", I(1))), Expr(MCall(V("q"), "join")), Print(S("after")),
+        Let("hs", List(Spawn("sq", I(2)), Spawn("sq", I(3)))), For("x", V("hs"), Block([Print(MCall(V("x"), "join"))])),
+        Print(Call("both", I(4))), Let("n", I(5)), Let("late", Spawn("sq", V("n"))), Expr(Asg(V("n"), I(6))), Print(MCall(V("late"), "join"), V("n"))]))))
     # shadowing in nested blocks
     add("shadow", main(Let("x", I(1)), Expr(Block([Let("x", I(2)), Print(V("x")),
                                                   Expr(Block([Let("x", I(3)), Print(V("x"))])), Print(V("x"))])),
@@ -610,6 +623,27 @@ def lambda_programs():
                                             Block([Print(S("c2"), Mem(V("e"), "message"))]))),
                                    Let("w", I(0)), While(Bin("<", V("w"), I(2)), Block([Expr(Asg(V("w"), I(1), "+=")), Print(S("w"), V("w"))])),
                                    Print(Bin("&&", V("yes"), Bin("||", V("no"), V("yes"))))])
+    # an exit of the ENCLOSING function after a literal of another result kind (what the compiler knows about "the current
+    # function" must be the enclosing function's again once the literal is done): return with and without value, from
+    # loops / ifs / try, with operands of the caller pending
+    lits = {"null": lambda: FnLit(["n"], Block([Print(S("visit"), V("n"))]), pts=["int"]),
+            "int": lambda: FnLit(["n"], Block([], Bin("*", V("n"), V("n"))), ret="int"),
+            "str": lambda: FnLit(["n"], Block([Ret(S("s"))]), ret="str", pts=["int"])}
+    for lname, lit in lits.items():
+        use = Expr(CallV(V("f"), V("x"))) if lname == "null" else Let("u", CallV(V("f"), V("x")))
+        find = Fn(["l", "want"], Block([Let("f", lit()), For("x", V("l"), Block([use, Expr(If(Bin("==", V("x"), V("want")), Block([Ret(Bin("*", V("x"), I(10)))])))]))],
+                                       Un("-", I(1))), "int", ["[int]", "int"])
+        early = Fn(["l"], Block([Let("f", lit()), For("x", V("l"), Block([use, Expr(If(Bin(">", V("x"), I(1)), Block([Print(S("big"), V("x")), Ret(None)])))])),
+                                 Print(S("none"))]), "null", ["[int]"])
+        intry = Fn(["k"], Block([Let("f", lit()), Let("x", V("k")), use,
+                                 Expr(Try(Block([Expr(If(Bin(">", V("k"), I(0)), Block([Ret(Bin("+", V("k"), I(100)))]))), Expr(Call("throw", S("t")))]), "e",
+                                          Block([Ret(Un("-", I(5)))])))], I(0)), "int", ["int"])
+        pair = Fn(["a", "b"], Block([], Bin("+", Bin("*", V("a"), I(1000)), V("b"))), "int", ["int", "int"])
+        progs.append(Program("lam_return_after_" + lname, {"find": find, "early": early, "intry": intry, "pair": pair, "main": Fn([], Block([
+            Print(Call("find", List(I(1), I(2), I(3)), I(2)), I(99)), Print(Call("pair", I(7), Call("find", List(I(4), I(5)), I(5)))),
+            Print(Call("pair", Call("find", List(I(4)), I(9)), I(8))), Expr(Call("early", List(I(1), I(2), I(3)))), Expr(Call("early", List(I(0)))),
+            Print(Call("pair", Call("intry", I(1)), Call("intry", I(0)))), Print(List(I(1), Call("find", List(I(6)), I(6)), I(3)))]))},
+            globs=[("yes", B(True)), ("no", B(False))], feats={"family": "lambda", "template": "return_after_" + lname}))
     add("lambda_arg", [Print(CallV(FnLit(["a", "b"], Block([], Bin("-", V("a"), V("b"))), ret="int"), I(7), I(2)))])
     add("lambda_in_list_call", [Let("f", FnLit([], Block([Print(S("called"))]))), Expr(Call("f")), Expr(Call("f"))])
     return progs
